@@ -12,7 +12,6 @@ import (
 	"errors"
 	"fmt"
 	"math"
-	"os"
 	"reflect"
 	"regexp"
 	"sort"
@@ -145,6 +144,17 @@ func vC15ViewVal(sb *strings.Builder, v reflect.Value, depth int) {
 				continue // unexported
 			}
 			sb.WriteString(t.Field(i).Name + ":")
+			if t.Field(i).Name == "FillValue" && v.Field(i).Kind() == reflect.Interface && !v.Field(i).IsNil() {
+				// the wire carries the fill value as a double: fill(5) (int64) arrives as 5.0, value-equal
+				switch x := v.Field(i).Interface().(type) {
+				case int64:
+					fmt.Fprintf(sb, "number(%v) ", float64(x))
+					continue
+				case float64:
+					fmt.Fprintf(sb, "number(%v) ", x)
+					continue
+				}
+			}
 			vC15ViewVal(sb, v.Field(i), depth+1)
 			sb.WriteString(" ")
 		}
@@ -401,10 +411,6 @@ func TestVerifC15RoundTrip(t *testing.T) {
 			r := resps[rapid.IntRange(0, len(resps)-1).Draw(rt, "resp")]
 			m, zero, name = r.draw(rt), r.zero(), r.name
 		}
-		if o, ok := m.(*CreateIteratorRequest); ok && vC15IntFill(o.Opt) {
-			st.Exclude("iterator-options-integer-fill-value-dropped")
-			rt.Skip("known")
-		}
 		before := vC15ViewMsg(m)
 		var b []byte
 		var err error
@@ -435,10 +441,6 @@ func TestVerifC15RoundTrip(t *testing.T) {
 	})
 }
 
-func vC15IntFill(opt query.IteratorOptions) bool {
-	_, isInt := opt.FillValue.(int64)
-	return isInt
-}
 
 // ---------------------------------------------------------------------------------------------
 // streamed query points: IteratorEncoder -> ReaderIterator
@@ -632,11 +634,6 @@ func TestVerifC15PointStream(t *testing.T) {
 				want = append(want, vC15PointView(c.name, c.tags, c.time, v, c.aux, c.agg, c.null))
 			case influxql.Unsigned:
 				v := rapid.Uint64().Draw(rt, "uv")
-				if os.Getenv("VERIF_C15_NOEXCLUDE") == "" && v != 0 && !c.null {
-					// known finding unsigned-point-value-not-encoded: excluded by construction
-					st.Exclude("unsigned-point-value-not-encoded")
-					v = 0
-				}
 				ul = append(ul, query.UnsignedPoint{Name: c.name, Tags: c.tags, Time: c.time, Value: v, Aux: c.aux, Aggregated: c.agg, Nil: c.null})
 				want = append(want, vC15PointView(c.name, c.tags, c.time, v, c.aux, c.agg, c.null))
 			case influxql.String:
